@@ -25,6 +25,7 @@ def run(chk):
 
     r16b(chk, 'R15.e')
     r09d(chk, 'R15.f')
+    r15g(chk)
 
 
 def _is_filtered(e):
@@ -162,3 +163,46 @@ def r15d(chk, rid='R15.d'):
     chk.ob(rid, UTIL, '_Namespaces.__setitem__', 'declares through insertRule(..., inOrder=True) or the rule setters', 'self.parentStyleSheet.insertRule(' in src and 'inOrder=True' in src and 'rule.namespaceURI = namespaceURI' in src, '')
     src = ast.unparse(ci.methods['__delitem__'])
     chk.ob(rid, UTIL, '_Namespaces.__delitem__', 'deletes through deleteRule (which keeps the in-use guard)', 'self.parentStyleSheet.deleteRule(' in src, '')
+
+
+def r15g(chk, rid='R15.g'):
+    chk.rule(rid, 'the prefix of an @namespace rule and its serialised item move together: on every normal path of CSSNamespaceRule._setPrefix that stores self._prefix, the item list is written too (replace the prefix item, or insert one) - path-sensitive over the for/else')
+    from sa import cfg as cfgmod2
+    from sa.cfg import EXIT_RET as ER
+
+    fn = chk.repo.fn(NSRULE, 'CSSNamespaceRule._setPrefix')
+    g = cfgmod2.CFG(fn)
+
+    def wr(n):
+        out = set()
+        if n.kind == 'stmt':
+            s = n.stmt
+            if isinstance(s, ast.Assign):
+                for t in s.targets:
+                    if text(t) == 'self._prefix':
+                        out.add('prefix')
+                    if isinstance(t, ast.Subscript) and text(t.value) == 'self._seq':
+                        out.add('seq')
+            for c in cfgmod2.calls_at(n):
+                if text(c.func) in ('self._seq.insert', 'self._seq.append', 'self._seq.replace'):
+                    out.add('seq')
+        return frozenset(out)
+
+    states = {ENTRY: {frozenset()}}
+    work = [ENTRY]
+    while work:
+        a = work.pop()
+        for b, _ in g.succ[a]:
+            new = {s | wr(g.nodes[b]) for s in states[a]}
+            if not new <= states.setdefault(b, set()):
+                states[b] |= new
+                work.append(b)
+    exits = states.get(ER, set())
+    if not any('prefix' in s for s in exits):
+        raise AnalysisError('_setPrefix: store to self._prefix not found')
+    for s in sorted(exits, key=sorted):
+        ok = not s or s == frozenset({'prefix', 'seq'})
+        chk.ob(rid, NSRULE, 'CSSNamespaceRule._setPrefix', f'path writing {sorted(s) or "nothing"}', ok,
+               'the prefix reported by the rule (and used by the namespace mapping and by selectors) changes while the serialised rule keeps the old one')
+    init = ast.unparse(chk.repo.fn(NSRULE, 'CSSNamespaceRule.__init__'))
+    chk.ob(rid, NSRULE, 'CSSNamespaceRule.__init__', 'the constructor sets URI and prefix through their setters', 'self.namespaceURI = namespaceURI' in init and 'self.prefix = prefix' in init, '')
